@@ -316,6 +316,8 @@ impl LunarMonth {
     match vec {
       Some(v) => instance = Self::from_cache((*v).to_owned()),
       None => {
+        // 先释放锁再构造，构造失败(panic)时不会毒化缓存锁
+        drop(map);
         #[cfg(tyme4rs_verif)]
         verif_hooks::emit_if_refused(&key, year, month);
         instance = Self::new(year, month).unwrap();
@@ -325,6 +327,7 @@ impl LunarMonth {
         l.push(instance.get_day_count() as f64);
         l.push(instance.get_index_in_year() as f64);
         l.push(instance.get_first_julian_day().get_day());
+        map = LUNAR_MONTH_CACHE.lock().unwrap();
         #[cfg(tyme4rs_verif)]
         verif_hooks::emit("fill", &key, year, month, l.clone());
         map.insert(key, l);
